@@ -1099,7 +1099,8 @@ def rule_ex14(A: Analysis, rep, F: ExecFacts):
     ln = g.node_of(_stmt_of(lc))
     hvar = norm(_stmt_of(lc).targets[0]) if isinstance(_stmt_of(lc), ast.Assign) else None
     rec = [n for n in g.nodes if n.kind == "stmt" and isinstance(n.ast, ast.Assign) and norm(n.ast.targets[0]) == "%s.slot" % hvar and norm(n.ast.value) == slot]
-    pops = [n for n in g.nodes if n.kind == "stmt" and norm(n.ast) == "self._available_slots.pop()"]
+    pops = [n for n in g.nodes if n.kind == "stmt" and isinstance(n.ast, (ast.Expr, ast.Assign, ast.AnnAssign)) and n.ast.value is not None
+            and norm(n.ast.value) == "self._available_slots.pop()"]
     adds = [n for n in g.nodes if n.kind == "stmt" and A.calls_in(n.ast, "_InflightOperations.add_op")
             and not any(isinstance(a, ast.ExceptHandler) for a in _ancestors(n.ast))]
     ok_rec = len(rec) == 1 and len(adds) == 1 and g.all_paths_pass(ln, adds[0], rec, skip_labels=skip)
